@@ -258,6 +258,40 @@ def narrow_rules(ctx, facts, rep):
     return ok
 
 
+def limit_rules(facts, rep):
+    """the length guards refuse exactly what the 16-bit length fields cannot hold: reject iff len >= 65536, whatever the spelling
+    (`> 0xFFFF`, `>= 0x10000`, `!(len <= 0xFFFF)`); a guard that is off by one refuses the longest valid name/comment/extra field
+    (or lets the shortest invalid one through to a wrapped length)"""
+    from engine.paths import paths as _paths, outcome as _outcome
+    rule = "C02-LIMIT"
+    ok = True
+    A = re.compile(r"^(Gt|Ge|Lt|Le)\(((?:String|Vec(?:::<[^>]*>)?|slice|str|<\[T\]>)::len\(([\w.]+)\)), (\d+)\)$")
+    for pat, what in ((ZW + "start_entry$", "name"), (ZW + "finalize$", "comment"), (r"^write::validate_extra_data$", "extra_field")):
+        f = facts.one(pat)
+        found = {}
+        for p in _paths(f, max_paths=20000):
+            for i, (a_, v_) in enumerate(p["decisions"]):
+                m = A.match(a_) if a_ != "#iter" else None
+                if not m or what not in m.group(3) or v_ not in (0, 1):
+                    continue
+                op, c = m.group(1), int(m.group(4))
+                thr = {"Gt": c + 1, "Ge": c, "Lt": c, "Le": c + 1}[op]
+                too_long = (v_ == 1) == (op in ("Gt", "Ge"))
+                o = _outcome(p)
+                rec = found.setdefault((m.group(2), thr), [True, 0, 0])
+                if too_long:
+                    rec[1] += 1
+                    # nothing but the error return may follow the refusing decision
+                    rec[0] &= o[0] in ("Err", "ErrProp") and i == len(p["decisions"]) - 1
+                else:
+                    rec[2] += 1
+        good = bool(found) and all(k[1] == 65536 and v[0] and v[1] >= 1 and v[2] >= 1 for k, v in found.items())
+        ok &= rep.check(good, rule, "exact-capacity:%s" % what, where(f, f.span), "%s length refused iff >= 65536 (the 16-bit field's capacity), accepted otherwise" % what,
+                        "the %s length guard is %s: it must refuse exactly the lengths >= 65536" % (what, {k: tuple(v) for k, v in found.items()} or "missing"))
+    rep.floor(rule, 3)
+    return ok
+
+
 def offs_rules(ctx, facts, rep):
     rule = "C02-OFFS"
     ok = True
@@ -372,11 +406,14 @@ def run(ctx, rep):
     patchoff_rules(ctx, facts, rep, rule="C02-PATCHOFF")
     flag_rules(ctx, facts, rep)
     narrow_rules(ctx, facts, rep)
+    limit_rules(facts, rep)
     offs_rules(ctx, facts, rep)
     vers_rules(ctx, facts, rep)
     thr_rules(ctx, facts, rep, rule="C02-Z64")
     pair_rules(ctx, facts, rep, rule="C02-Z64", side="write")
     eocd_rules(ctx, facts, rep, rule="C02-Z64")
+    from rules.C12 import ts_rules
+    ts_rules(facts, rep)               # reported as C02/C12-TS: extra data rejected by validation can never reach a finished archive
     rep.floor("C02-CODEC", 55)
     rep.floor("C02-SIB", 7)
     rep.floor("C02-FLAGS", 2)
